@@ -51,21 +51,22 @@ type Failure struct {
 }
 
 type Ctx struct {
-	P        *Prop
-	Rnd      *rand.Rand
-	Tier     string
-	Thorough bool
-	N        int // scale: suggested number of random cases
-	w        *bufio.Writer
-	count    int
-	nontriv  int
-	seen     map[uint64]struct{}
-	dist     map[string]int
-	samples  []string
-	fails    []Failure
-	failN    int
-	maxCases int
-	deadline time.Time
+	P          *Prop
+	Rnd        *rand.Rand
+	Tier       string
+	Thorough   bool
+	N          int // scale: suggested number of random cases
+	w          *bufio.Writer
+	count      int
+	oracleOnly int
+	nontriv    int
+	seen       map[uint64]struct{}
+	dist       map[string]int
+	samples    []string
+	fails      []Failure
+	failN      int
+	maxCases   int
+	deadline   time.Time
 }
 
 func (c *Ctx) Count(key string) { c.dist[key]++ }
@@ -103,6 +104,29 @@ func (c *Ctx) Input(in sx.SX, nontrivial bool) {
 		c.samples = append(c.samples, c.P.Human(in))
 	}
 	c.count++
+}
+
+// OracleOnly runs the implementation and the direct oracle of the property on an input that is too large for the model
+// to be worth running on it (scale cases: thousands of tokens, hundreds of nesting levels); the case is not handed to
+// the Coq model, and it is counted separately in the evidence ("oracle_only").
+func (c *Ctx) OracleOnly(in sx.SX, what string) {
+	_, fail := safeRun(c.P, in)
+	c.oracleOnly++
+	c.dist["oracle-only:"+what]++
+	if fail != "" {
+		c.failN++
+		if len(c.fails) < 50 {
+			line := sx.Text(in)
+			if len(line) > 4000 {
+				line = line[:4000] + "...(" + fmt.Sprint(len(line)) + " characters)"
+			}
+			human := c.P.Human(in)
+			if len(human) > 600 {
+				human = human[:600] + "...(" + fmt.Sprint(len(human)) + " characters)"
+			}
+			c.fails = append(c.fails, Failure{Index: 1 << 30, Input: line, Human: what + ": " + human, Detail: fail, Kind: "oracle"})
+		}
+	}
 }
 
 // PanicMark is the observable of a case on which the implementation panicked.
@@ -213,7 +237,7 @@ func main() {
 		"property": p.ID, "tier": *tier, "seed": *seed,
 		"evaluations": ctx.count, "distinct": len(ctx.seen), "distinct_nontrivial": ctx.nontriv,
 		"rule": p.Rule, "samples": ctx.samples, "distribution": ctx.dist,
-		"oracle_failures": ctx.failN, "failures": ctx.fails, "gen_wall_s": time.Since(start).Seconds(),
+		"oracle_failures": ctx.failN, "failures": ctx.fails, "oracle_only": ctx.oracleOnly, "gen_wall_s": time.Since(start).Seconds(),
 	}
 	b, _ := json.MarshalIndent(meta, "", " ")
 	os.WriteFile(filepath.Join(*out, "meta.json"), b, 0o644)
